@@ -44,6 +44,11 @@ func checkC04(c *Ctx) {
 	c.Decides("HASH-AFTER-CLEAR: every caller of ClearBitSets (which zeroes the branch hash codes too) recomputes the hashes afterwards")
 	c.hashAfterClear("HASH-AFTER-CLEAR")
 	c.Floor("HASH-AFTER-CLEAR", 2)
+	c.Decides("REINDEX-LAST (go/cfg): the eleven operations of package tree that edit the structure and refresh the derived data themselves (RerootOutGroup, RerootMidPoint, RemoveTips, Reroot, Resolve, ResolveNamedInternalNodes, RemoveSingleNodes, RemoveEdges, UnRoot, SubTree, Merge) pass a call reaching UpdateBitSet on every path from each of their structural edits to a successful exit")
+	c.reindexLast("REINDEX-LAST", reindexLastFuncs, "every branch's recorded split (tip counts on both sides) equals the split obtained by cutting that branch", false)
+	for _, nm := range reindexLastFuncs {
+		c.Require("REINDEX-LAST/tree.Tree." + nm + "/refresh-after-last-edit")
+	}
 	c.Decides("REORIENT-REINDEX: every exported method of Tree that re-orients branches (reaches ReorderEdges) also reaches UpdateBitSet, ComputeEdgeHashes and ComputeDepths: the per-side hash codes and tip counts depend on the orientation")
 	c.reorientReindex("REORIENT-REINDEX", "every branch's recorded split (tip counts on both sides) equals the split obtained by cutting that branch")
 	c.Floor("REORIENT-REINDEX", 3)
